@@ -23,7 +23,9 @@ provider, entity and attribute objects (snapshot_pristine) - a cache added later
 being named here; a statement that does not reproduce its cold reference after the restore is
 itself reported.
 """
-import os, sys, json, itertools, sqlite3, atexit, shutil
+import os, sys, json, itertools, sqlite3, atexit, shutil, uuid
+from decimal import Decimal
+from datetime import date, datetime, time, timedelta
 from vf import core
 from vf.engines import dm
 from vf.props import _c30_lib as lib
@@ -89,6 +91,10 @@ class RecConnection(sqlite3.Connection):
         return sqlite3.Connection.cursor(self, RecCursor)
 
 ROWS = [7, 8, 70, 71, 'oyz', 'OYZ', '7|a)b', 'a)b/70', 'dk', 'DK', 'a', '$', '%', '%%', '%s', 'Q', 'QQ', '?', '']
+TYPED_ROWS = [(1, 6, '6', '7.25', '2020-01-01', '2020-01-02 03:04:04', 7.25, 0, b'6'),
+              (2, 7, '7', '7.5', '2020-01-02', '2020-01-02 03:04:05', 7.5, 1, b'7'),
+              (3, 8, '8', '7.75', '2020-01-03', '2020-01-02 03:04:06', 7.75, 1, b'8'),
+              (4, None, None, None, None, None, None, None, None)]
 DBNAMES = ('sqlite', 'sqlite-named', 'pg', 'mysql', 'oracle', 'numeric')
 REAL = ('sqlite', 'sqlite-named')
 
@@ -106,18 +112,25 @@ class DbEnv(object):
             _table_ = 'c30item'
             id = orm.PrimaryKey(int)
             s = orm.Optional(str)
+        class C30Typed(db.Entity):       # one column per scalar type: the type-history part runs on it
+            _table_ = 'c30typed'
+            id = orm.PrimaryKey(int)
+            i = orm.Optional(int); s = orm.Optional(str, nullable=True); dec = orm.Optional(Decimal, 12, 2)
+            dt = orm.Optional(date); ts = orm.Optional(datetime); fl = orm.Optional(float)
+            b = orm.Optional(bool); by = orm.Optional(bytes)
         if self.real:
             db.bind('sqlite', self.path, create_db=True, factory=RecConnection)
             db.generate_mapping(create_tables=True)
             db.disconnect()
             con = sqlite3.connect(self.path)
             con.executemany('insert into c30item (id, s) values (?, ?)', [(i + 1, v) for i, v in enumerate(ROWS)])
+            con.executemany('insert into c30typed (id, i, s, dec, dt, ts, fl, b, by) values (?, ?, ?, ?, ?, ?, ?, ?, ?)', TYPED_ROWS)
             con.commit(); con.close()
         else:
             db.generate_mapping()
         if name == 'sqlite-named': db.provider.paramstyle = 'named'
         if name == 'numeric': db.provider.paramstyle = 'numeric'
-        self.db, self.Item = db, C30Item
+        self.db, self.Item, self.Typed = db, C30Item, C30Typed
         self.style = db.provider.paramstyle
         self._plain = None
     def mark(self):
@@ -155,7 +168,7 @@ def snapshot_pristine():
     del _PRISTINE[:]
     holders = [m for n, m in sorted(sys.modules.items()) if n == 'pony' or n.startswith('pony.')]
     for env in ENV.values():
-        holders += [env.db, env.db.provider, env.Item] + list(env.Item._attrs_)
+        holders += [env.db, env.db.provider, env.Item, env.Typed] + list(env.Item._attrs_) + list(env.Typed._attrs_)
     seen = set()
     for h in holders:
         try: d = vars(h)
@@ -469,6 +482,7 @@ def core_items(items, quick):
 
 def run_item(item):
     ch, nm, lay = item
+    if lay == 'typed': return json.dumps(observe_typed(ch, tuple(nm)), sort_keys=True)
     return json.dumps(lib.canon(observe(ch, lib.text_of(nm, lay), 0)), sort_keys=True)
 
 class Zygote(object):
@@ -595,7 +609,10 @@ def pair_worker(job):
     return sub.dump()
 
 def any_worker(job):
-    return sweep_worker(job[1]) if job[0] == 'sweep' else pair_worker(job[1])
+    if job[0] == 'sweep': return sweep_worker(job[1])
+    if job[0] == 'pairs': return pair_worker(job[1])
+    if job[0] == 'tpairs': return typed_pair_worker(job[1])
+    return typed_triple_worker(job[1])
 
 def cold_worker(idxs):
     out = []
@@ -604,48 +621,297 @@ def cold_worker(idxs):
         out.append((i, run_item(ITEMS[i])))
     return out
 
+# ---- type-history part: the same call site / the same SQL text with $-values of different Python types -------
+TVALS = dict([('int', 7), ('int8', 8), ('str', '7'), ('Decimal', Decimal('7.5')), ('date', date(2020, 1, 2)),
+              ('datetime', datetime(2020, 1, 2, 3, 4, 5)), ('float', 7.5), ('bool', True), ('None', None),
+              ('bytes', b'7'), ('entity', None),                                   # entity: Typed[2], made per call
+              ('str8', '8'), ('time', time(3, 4, 5)), ('timedelta', timedelta(hours=7)),
+              ('UUID', uuid.UUID('12345678123456781234567812345678'))])
+TV_QUICK = ('int', 'int8', 'str', 'Decimal', 'date', 'datetime', 'float', 'bool', 'None', 'bytes', 'entity')
+TV_ALL = TV_QUICK + ('str8', 'time', 'timedelta', 'UUID')
+TV_TWO = ('int', 'str', 'Decimal', 'date', 'float', 'None')
+RTS = dict([('-', None), ('int', int), ('str', str), ('Decimal', Decimal), ('float', float), ('date', date),
+            ('bool', bool), ('datetime', datetime), ('bytes', bytes)])
+RT_QUICK = ('-', 'int', 'str', 'Decimal', 'float', 'date', 'bool')
+RT_ALL = RT_QUICK + ('datetime', 'bytes')
+T_COND = ('e.i <= $x', '$x >= e.dt', 'e.s = $x', 'e.dec < $x', 'e.ts > $x', 'e.fl <> $x', 'e.b = $x', 'e.by = $x')
+T_TWO = '$x <= e.fl and e.dec <= $y'
+T_EXPR = ('coalesce($x, e.s)', 'coalesce(e.i, $x)')
+T_COL = ('e.s', 'e.i', 'e.dec', 'e.dt')
+T_DBS_QUICK = ('sqlite', 'pg')
+T_DBS_ALL = ('sqlite', 'sqlite-named', 'pg', 'mysql', 'oracle')
+T_PREFIX = {'db': 'select id from c30typed e where ', 'E': 'select * from c30typed e where '}
+
+def call_typed(what, target, sql, x, y, rt):
+    """ONE call site per entry point: every type-history item of an entry point runs the same code
+    object; only the SQL text, the values of $x/$y in this frame and the result type vary."""
+    from pony.orm import select, raw_sql
+    if what == 'select': return target.select(sql)
+    if what == 'get': return target.get(sql)
+    if what == 'exists': return target.exists(sql)
+    if what == 'execute': return target.execute(sql).fetchall()
+    if what == 'select_by_sql': return target.select_by_sql(sql)
+    if what == 'get_by_sql': return target.get_by_sql(sql)
+    Item = target
+    if what == 'genif': return select(e for e in Item if raw_sql(sql, rt))[:]
+    if what == 'genexpr': return select(raw_sql(sql, rt) for e in Item)[:]
+    if what == 'lamsel': return Item.select(lambda e: raw_sql(sql, rt))[:]
+    if what == 'filter': return select(e for e in Item).filter(raw_sql(sql, rt))[:]
+    if what == 'where': return select(e for e in Item).where(raw_sql(sql, rt))[:]
+    if what == 'order_by': return select(e for e in Item).order_by(raw_sql(sql, rt))[:]
+    raise AssertionError(what)
+
+def tcanon(v):
+    """like lib.canon, but every scalar carries its Python type (7, 7.0, '7' and Decimal('7') differ)."""
+    if isinstance(v, (list, tuple)) or type(v).__name__ == 'QueryResult': return [tcanon(i) for i in v]
+    if isinstance(v, dict): return {str(k): tcanon(i) for k, i in sorted(v.items(), key=lambda kv: str(kv[0]))}
+    if hasattr(v, '_pkval_'): return '<%s %r>' % (type(v).__name__, v._pkval_)
+    if v is None: return None
+    return '%s:%r' % (type(v).__name__, v)
+
+def observe_typed(ch, nm):
+    """ch = 'T.<group>.<method>:<db>', nm = (fragment, x value name, y value name, result type name)."""
+    from pony.orm import db_session
+    frag, vx, vy, rt = nm
+    kind, _, dbn = ch[2:].partition(':')
+    env = ENV[dbn]
+    group, meth = kind.split('.')
+    target = env.db if group == 'db' else env.Typed
+    text = T_PREFIX.get(group, '') + frag
+    mark = env.mark()
+    out = dict(style=env.style)
+    try:
+        with db_session:
+            vals = [env.Typed._get_by_raw_pkval_((2,)) if v == 'entity' else TVALS[v] for v in (vx, vy)]
+            out['result'] = tcanon(call_typed(meth, target, text, vals[0], vals[1], RTS[rt]))
+    except Exception as e:
+        out['exc'] = type(e).__name__
+    sent = env.sent_since(mark)
+    if sent:
+        out['sql'], out['args'] = sent[-1][0], tcanon(sent[-1][1])
+        out['nsent'] = len(sent)
+    if env.real: del DRIVER_LOG[:]
+    else: del env.db.log[:]
+    return out
+
+def item_text(nm, lay):
+    if lay == 'typed': return '%s {x: %s, y: %s, result_type: %s}' % tuple(nm)
+    return lib.text_of(nm, lay)
+
+def typed_items(quick):
+    """(channel, (fragment, x, y, result type), 'typed') items; see the module docstring for the bounds."""
+    V = TV_QUICK if quick else TV_ALL
+    R = RT_QUICK if quick else RT_ALL
+    out = []
+    def add(kind, d, frags, xs, ys=('None',), rts=('-',)):
+        for fr in frags:
+            for vx in xs:
+                for vy in (ys if '$y' in fr else ('None',)):
+                    for rt in rts: out.append(('T.%s:%s' % (kind, d), (fr, vx, vy, rt), 'typed'))
+    for d in (T_DBS_QUICK if quick else T_DBS_ALL):
+        add('rawq.genif', d, T_COND[:2] if quick else T_COND[:5], V)
+        if not quick: add('rawq.genif', d, T_COND[5:], TV_QUICK)
+        if not quick: add('rawq.genif', d, (T_TWO,), TV_TWO, TV_TWO)
+        for fm in ('where',) if quick else ('where', 'lamsel', 'filter'):
+            add('rawq.' + fm, d, T_COND[:1] if quick else T_COND[:2], V)
+        add('rawq.genexpr', d, T_EXPR[:1] if quick else T_EXPR, V)
+        add('rawq.genexpr', d, T_COL[:2] if quick else T_COL, ('None',), rts=R)
+        add('rawq.genexpr', d, T_EXPR[:1], ('int', 'str'), rts=R[1:])
+        add('rawq.order_by', d, T_EXPR[1:], V)
+        add('db.select', d, T_COND[:1] if quick else T_COND[:2], V)
+        add('E.select_by_sql', d, T_COND[:1] if quick else T_COND[:2], V)
+        if not quick:
+            for m in ('get', 'exists', 'execute'): add('db.' + m, d, T_COND[:1], V)
+            add('E.get_by_sql', d, T_COND[:1], V)
+            add('db.select', d, (T_TWO,), TV_TWO, TV_TWO)
+    return out
+
+def t_db(item): return item[0].partition(':')[2]
+def t_site(item): return (item[0], item[1][0])
+
+def typed_core(items, quick):
+    """items whose cold reference is taken from a pristine fork: per (entry point, database) the first
+    fragment with every value / every result type (quick: the real SQLite database and PostgreSQL genif)."""
+    first = {}
+    for it in items: first.setdefault(it[0], it[1][0])
+    keep = []
+    for i, it in enumerate(items):
+        if it[1][0] not in (first[it[0]], T_COL[0]): continue
+        if quick and not (t_db(it) == 'sqlite' or it[0].startswith('T.rawq.genif')): continue
+        keep.append(i)
+    return keep
+
+T_COMPONENTS = ('database', 'entry point', 'SQL text', '$x', '$y', 'result_type')
+def _t_parts(it):
+    kind, _, dbn = it[0].partition(':')
+    return [dbn, kind] + list(it[1])
+def _t_item(parts):
+    return ('%s:%s' % (parts[1], parts[0]), tuple(parts[2:]), 'typed')
+
+def _val_diff(a, b):
+    ta = type(TVALS[a]).__name__ if a != 'entity' else 'entity'
+    tb = type(TVALS[b]).__name__ if b != 'entity' else 'entity'
+    return 'type' if ta != tb else 'value'
+
+def shrink_typed(i1, i2):
+    """Make the first call equal to the second, component by component, as long as the second still
+    differs from its cold result: what remains different is the minimal failing shape."""
+    p1, p2 = _t_parts(i1), _t_parts(i2)
+    for k in range(len(p1)):
+        if p1[k] == p2[k] or sum(u != v for u, v in zip(p1, p2)) == 1: continue
+        cand = list(p1); cand[k] = p2[k]
+        if pair_fails(_t_item(cand), i2): p1 = cand
+    # a value of another type -> another value of the same type, when that still shows it
+    for k in (3, 4):
+        if p1[k] != p2[k] and _val_diff(p1[k], p2[k]) == 'type':
+            for alt in sorted(TVALS):
+                if alt != p2[k] and _val_diff(alt, p2[k]) == 'value':
+                    cand = list(p1); cand[k] = alt
+                    if pair_fails(_t_item(cand), i2): p1 = cand; break
+    return _t_item(p1), i2
+
+_GROUPNAME = {'rawq': 'raw_sql() in a query', 'db': 'Database.select/get/exists/execute', 'E': 'select_by_sql/get_by_sql'}
+def _differs(warm, cold):
+    w, c = json.loads(warm), json.loads(cold)
+    out = [k for k in ('sql', 'args') if w.get(k) != c.get(k)]
+    if (w.get('exc'), w.get('result')) != (c.get('exc'), c.get('result')): out.append('outcome')
+    return '+'.join(out) or 'statements sent'
+
+_tsig = {}
+def typed_signature(i1, i2):
+    m1, m2 = shrink_typed(i1, i2)
+    if (m1, m2) in _tsig: return _tsig[(m1, m2)], m1, m2
+    p1, p2 = _t_parts(m1), _t_parts(m2)
+    diff = []
+    for k, name in enumerate(T_COMPONENTS):
+        if p1[k] != p2[k]:
+            diff.append(name + (' ' + _val_diff(p1[k], p2[k]) if k in (3, 4) else ''))
+    g2 = _GROUPNAME[p2[1].split('.')[1]]
+    if p1[1] != p2[1]: g2 = '%s after %s' % (g2, _GROUPNAME[p1[1].split('.')[1]])
+    reset_known_caches(); cold = run_item(m2)
+    reset_known_caches(); run_item(m1); warm = run_item(m2)
+    sig = 'type-history|%s|earlier call differs in: %s|changes: %s' % (g2, ', '.join(diff) or 'nothing (same call repeated)', _differs(warm, cold))
+    _tsig[(m1, m2)] = sig
+    return sig, m1, m2
+
+TITEMS = []
+TCOLD = []
+TCROSS = frozenset()
+def typed_partners(a):
+    """second items paired with first item a: every item of the same database; across databases the
+    items of the cross-database subset."""
+    da = t_db(TITEMS[a])
+    return [b for b in range(len(TITEMS)) if t_db(TITEMS[b]) == da or (a in TCROSS and b in TCROSS)]
+
+def _typed_violation(sub, hist, got, cold):
+    i1, i2 = hist[-2], hist[-1]
+    sig, m1, m2 = typed_signature(i1, i2)
+    sub.violation(sig, dict(part='pair', history=[list(h) for h in hist], first=list(i1), second=list(i2),
+                            minimal_first=list(m1), minimal_second=list(m2), got=got, cold=cold),
+                  'after %s, %s %s gives %s but a cold process gives %s'
+                  % ('; '.join('%s %s' % (h[0], item_text(h[1], h[2])) for h in hist[:-1]), i2[0], item_text(i2[1], i2[2]), got[:200], cold[:200]))
+
+def typed_pair_worker(firsts):
+    sub = core.Sub()
+    for a in firsts:
+        i1 = TITEMS[a]
+        for b in typed_partners(a):
+            i2 = TITEMS[b]
+            reset_known_caches()
+            r1 = run_item(i1)
+            r2 = run_item(i2)
+            sub.count('type_pairs')
+            if a != b: sub.count('type_pairs_distinct_items')
+            if i1[1][0] == i2[1][0] and i1[1] != i2[1]: sub.count('type_pairs_same_sql_text_other_types')
+            if r1 != TCOLD[a]:
+                sub.violation('history|statement run after restoring pristine container contents differs from its cold reference|%s' % i1[0],
+                              dict(part='pair', first=None, second=list(i1), got=r1, cold=TCOLD[a]),
+                              'state outside the restored containers influences %s %s' % (i1[0], item_text(i1[1], i1[2])))
+            if r2 != TCOLD[b]:
+                sub.count('type_pair_mismatches')
+                _typed_violation(sub, [i1, i2], r2, TCOLD[b])
+    return sub.dump()
+
+def typed_triple_worker(job):
+    """all ordered triples of the items of one call site (same entry point, database and SQL text)."""
+    idxs, part, nparts = job
+    sub = core.Sub()
+    for n, (a, b) in enumerate(itertools.product(idxs, repeat=2)):
+        if n % nparts != part: continue
+        for c in idxs:
+            reset_known_caches()
+            run_item(TITEMS[a])
+            rb = run_item(TITEMS[b])
+            rc = run_item(TITEMS[c])
+            sub.count('type_triples')
+            if rc != TCOLD[c]:
+                sub.count('type_triple_mismatches')
+                if pair_fails(TITEMS[b], TITEMS[c]) or pair_fails(TITEMS[a], TITEMS[c]):
+                    sub.count('type_triple_mismatches_explained_by_a_pair')      # reported by the pairs part
+                else:
+                    sub.violation('type-history|only after two earlier calls|%s' % TITEMS[c][0].partition(':')[0],
+                                  dict(part='long', sequence=[list(TITEMS[k]) for k in (a, b, c)], got=rc, cold=TCOLD[c]),
+                                  'after %s and %s, %s gives %s, cold %s' % (item_text(*TITEMS[a][1:]), item_text(*TITEMS[b][1:]),
+                                                                             item_text(*TITEMS[c][1:]), rc[:160], TCOLD[c][:160]))
+    return sub.dump()
+
+def cold_and_long_histories(ctx, zyg, items, cold, corei, sigfunc):
+    """cold references (taken in-process after restoring pristine contents) are validated against
+    pristine forked processes: one fork per core item, and two long histories (all items forward /
+    backward), each in one pristine process."""
+    n = len(items)
+    for i in ctx.shuffled(corei):
+        r = zyg.run([items[i]])[0]
+        ctx.count('cold_reference_forks')
+        if r != cold[i]:
+            ctx.violation('history|pristine forked process disagrees with the in-process cold reference|%s' % items[i][0],
+                          dict(part='pair', first=None, second=list(items[i]), got=cold[i], cold=r),
+                          'pristine fork: %s, after restoring pristine containers: %s' % (r[:200], cold[i][:200]))
+    order = ctx.shuffled(range(n)) if ctx.seed else list(range(n))
+    for name, seq in (('forward', order), ('backward', order[::-1])):
+        res = zyg.run([items[i] for i in seq])
+        ctx.count('long_histories')
+        for pos, i in enumerate(seq):
+            ctx.count('long_history_steps')
+            if res[pos] != cold[i]:
+                # attribute to an ordered pair if one reproduces it (same call site first), else report the long history
+                culprit = None
+                site = (items[i][0], items[i][1][0])
+                for j in sorted(seq[:pos], key=lambda j: (items[j][0], items[j][1][0]) != site):
+                    if pair_fails(items[j], items[i]): culprit = j; break
+                if culprit is not None:
+                    sig, m1, m2 = sigfunc(items[culprit], items[i])
+                    ctx.violation(sig, dict(part='pair', first=list(items[culprit]), second=list(items[i]),
+                                            minimal_first=list(m1), minimal_second=list(m2), got=res[pos], cold=cold[i]),
+                                  'long history in a pristine process: %s gives %s, cold %s' % (items[i][0], res[pos][:160], cold[i][:160]))
+                else:
+                    ctx.violation('history|only after a long history|%s %s' % (items[i][0], json.dumps(item_text(items[i][1], 'raw' if items[i][2] != 'typed' else 'typed'))),
+                                  dict(part='long', sequence=[list(items[k]) for k in seq[:pos + 1]], got=res[pos], cold=cold[i]),
+                                  'after %d earlier statements in a pristine process %s gives %s, cold %s' % (pos, items[i][0], res[pos][:160], cold[i][:160]))
+
 # ---- run ----------------------------------------------------------------------------------------------
 def run(ctx):
-    global ITEMS, COLD
+    global ITEMS, COLD, TITEMS, TCOLD, TCROSS
     import pony.orm
     setup_env()
     zyg = Zygote()                     # pristine: nothing has been adapted in this process yet
     try:
         ITEMS = hist_items(ctx.quick)
         n = len(ITEMS)
-        # ---- cold references: in-process after restoring pristine contents ...
         COLD = [None] * n
         for i, r in cold_worker(range(n)): COLD[i] = r
-        # ---- ... validated against pristine forked processes: one fork per core item, and two
-        #      long histories (all items forward / backward) each in one pristine process
-        corei = core_items(ITEMS, ctx.quick)
-        for i in ctx.shuffled(corei):
-            r = zyg.run([ITEMS[i]])[0]
-            ctx.count('cold_reference_forks')
-            if r != COLD[i]:
-                ctx.violation('history|pristine forked process disagrees with the in-process cold reference|%s' % ITEMS[i][0],
-                              dict(part='pair', first=None, second=list(ITEMS[i]), got=COLD[i], cold=r),
-                              'pristine fork: %s, after restoring pristine containers: %s' % (r[:200], COLD[i][:200]))
-        order = ctx.shuffled(range(n)) if ctx.seed else list(range(n))
-        for name, seq in (('forward', order), ('backward', order[::-1])):
-            res = zyg.run([ITEMS[i] for i in seq])
-            ctx.count('long_histories')
-            for pos, i in enumerate(seq):
-                ctx.count('long_history_steps')
-                if res[pos] != COLD[i]:
-                    # attribute to an ordered pair if one reproduces it, else report the long history
-                    culprit = None
-                    for j in seq[:pos]:
-                        if pair_fails(ITEMS[j], ITEMS[i]): culprit = j; break
-                    if culprit is not None:
-                        sig, m1, m2 = pair_signature(ITEMS[culprit], ITEMS[i])
-                        ctx.violation(sig, dict(part='pair', first=list(ITEMS[culprit]), second=list(ITEMS[i]),
-                                                minimal_first=list(m1), minimal_second=list(m2), got=res[pos], cold=COLD[i]),
-                                      'long history in a pristine process: %s gives %s, cold %s' % (ITEMS[i][0], res[pos][:160], COLD[i][:160]))
-                    else:
-                        ctx.violation('history|only after a long history|%s %s' % (ITEMS[i][0], json.dumps(lib.text_of(ITEMS[i][1], 'raw'))),
-                                      dict(part='long', sequence=[list(ITEMS[k]) for k in seq[:pos + 1]], got=res[pos], cold=COLD[i]),
-                                      'after %d earlier statements in a pristine process %s gives %s, cold %s' % (pos, ITEMS[i][0], res[pos][:160], COLD[i][:160]))
+        cold_and_long_histories(ctx, zyg, ITEMS, COLD, core_items(ITEMS, ctx.quick), pair_signature)
+        # ---- the same for the type-history items
+        TITEMS = typed_items(ctx.quick)
+        tn = len(TITEMS)
+        TCOLD = [None] * tn
+        for i in range(tn):
+            reset_known_caches()
+            TCOLD[i] = run_item(TITEMS[i])
+        cold_and_long_histories(ctx, zyg, TITEMS, TCOLD, typed_core(TITEMS, ctx.quick), typed_signature)
+        if not ctx.quick:
+            TCROSS = frozenset(i for i, it in enumerate(TITEMS) if it[1][0] in (T_COND[0], T_COL[0]) and it[1][2] == 'None'
+                               and it[0].startswith(('T.rawq.genif', 'T.rawq.genexpr', 'T.db.select')))
         # ---- sweep
         amax, emax, rmax = (3, 3, 2) if ctx.quick else (4, 4, 3)
         jobs = []
@@ -658,6 +924,15 @@ def run(ctx):
         # ---- all ordered pairs (same pool of workers)
         firsts = ctx.shuffled(range(n))
         jobs = [('sweep', j) for j in jobs] + [('pairs', c) for c in (firsts[i::64] for i in range(64)) if c]
+        # ---- type histories: ordered pairs; thorough: all ordered triples within one call site
+        tfirsts = ctx.shuffled(range(tn))
+        jobs += [('tpairs', c) for c in (tfirsts[i::96] for i in range(96)) if c]
+        if not ctx.quick:
+            sites = {}
+            for i, it in enumerate(TITEMS): sites.setdefault(t_site(it), []).append(i)
+            for st, idxs in sorted(sites.items()):
+                if len(idxs) <= 16 and st[1] in (T_COND[0], T_EXPR[0], T_COL[0], T_EXPR[1]):
+                    jobs += [('ttriples', (idxs, p, 4)) for p in range(4)]
         before_sweep = set(ctx.found)
         for d in ctx.pmap(any_worker, ctx.shuffled(jobs)):
             core.absorb(ctx, d)
@@ -729,7 +1004,7 @@ def replay(ctx, case):
             if b is None: continue
             hist = ([_it(a)] if a else []) + [_it(b)]
             warm = zyg.run(hist)[-1]; cold = zyg.run([_it(b)])[0]
-            print('history', [(h[0], lib.text_of(h[1], h[2])) for h in hist]); print('   warm:', warm[:300]); print('   cold:', cold[:300])
+            print('history', [(h[0], item_text(h[1], h[2])) for h in hist]); print('   warm:', warm[:300]); print('   cold:', cold[:300])
             if a is None: cold = case['cold'] if case['got'] == warm else cold
             if warm != cold: ok = False
         return ok
